@@ -457,7 +457,9 @@ func init() {
 				c.Append(0, symbolPacket("M", s))
 			}
 			seedCheckpoint(c, srcBucket, "g", 0, oldUUID, F, F, F+2)
-			item := func(s uint64) gocbcore.SimPacket { return docPacket("mutation", s, fmt.Sprintf("new%d", s), "after", 0) }
+			item := func(s uint64) gocbcore.SimPacket {
+				return docPacket("mutation", s, fmt.Sprintf("new%d", s), "after", 0)
+			}
 			log := []gocbcore.SimPacket{marker(R+1, F+2)}
 			for s := R + 1; s <= sent; s++ {
 				log = append(log, item(s))
